@@ -12,10 +12,7 @@ def obligations(run, visitors, oid_prefix="trace"):
         out = os.path.join(root, "steel_core.mir")
         env = dict(os.environ, CARGO_NET_OFFLINE="true")
         env.pop("RUSTFLAGS", None)
-        with open(out, "w") as f, open(os.path.join(root, "mir.err"), "w") as e:
-            subprocess.run(["cargo", "+nightly", "rustc", "--offline", "-p", "steel-core", "--lib", "--no-default-features",
-                            "--features", ws.FEATURES, "--target-dir", os.path.join(root, "tmir"), "--",
-                            "-Zunpretty=mir", "-C", "debug-assertions=off"], cwd=wsdir, stdout=f, stderr=e, env=env)
+        ws.mir_dump(wsdir, root, out, env)
         res, kinds = p_visit.analyse(open(out).read(), open(os.path.join(wsdir, "crates", "steel-core", "src", "rvals.rs")).read())
     except Exception as ex:
         run.ob("%s:kind-tables" % oid_prefix, "inconclusive", reason="extraction failed: %s" % str(ex)[-300:], engine="mir-smt")
@@ -53,7 +50,8 @@ def obligations(run, visitors, oid_prefix="trace"):
             continue
         what = "%s traces %s child source(s) of values of kind %s (method %s) where its siblings %s trace %s" % (r["visitor"], r.get("sources_here"), kind, r.get("method"), r.get("siblings"), r.get("sources_siblings"))
         if not m:
-            run.ob(oid, "inconclusive", reason="solver: %s; not reproduced by the replay program" % what, **common)
+            tail = " ".join((p.stdout + p.stderr).split("\n")[-8:])[-300:]
+            run.ob(oid, "inconclusive", reason="solver: %s; not reproduced by the replay program (%s)" % (what, tail), **common)
             continue
         d = os.path.join(ws.VERIF, "replays", run.pid)
         os.makedirs(d, exist_ok=True)
